@@ -10,7 +10,7 @@ DRIVER = "shootmodel_map"
 
 MANIFEST = dict(
     text="Lean 4 theorems over parseCtors (parameter->field recovery composed with the C02 model of `shoot new`), makeCtorMatch with zero-value synthesis and the accessor pseudo-fields: every constructor argument is the zero literal or a justified value of a name-matched readable field, in parameter order (C15_ctor_args); no settable field is written twice, never after the constructor carried it (C15_set_once); name matching through accessors = matching of the exported twin (C15_refines_partial); 5 finding regions with witness theorems. Model tied to the code by rendering src/dest/both with unexported fields, generating real `shoot new -getset` output first, running `shoot map`, executing ToX/FromX and decoding every (unexported) leaf, plus per-leaf write counts from the generated text.",
-    note="Lean kernel + standard axioms; accessor-mode types are flat (no embedded shoot-new types); 'set at least once' and the full refinement to C05 are asserted by the correspondence only.",
+    note="Lean kernel + standard axioms; accessor-mode types are flat or embed ONE level of flat accessor-mode types by value (promoted accessors, nested constructor literal); 'set at least once' and the full refinement to C05 are asserted by the correspondence only.",
     technique="Lean 4 proof (fold invariant of makeCtorMatch, write-set invariant) + differential execution through real accessors",
     design="5/C15")
 
@@ -64,6 +64,11 @@ def shaped(g, rng):
         sp = g.pair(**dict(BASE, names=["ident"], kinds=["funconly"], n=(2, 3), extra=0.0, flags={"way": "to"}))
         mapgen.to_new(rng, sp, "dest", getonly=1.0, setonly=0.0, keep_exported=0.0, newmark=0.0)
         out.append(("ctor-all-from-methods", sp))
+    # an accessor-mode type that embeds another one: promoted getters / setters / nested constructor literal
+    for sd, way in (("dest", "both"), ("dest", "from"), ("src", "both"), ("dest", "to")):
+        sp = g.pair(**dict(BASE, names=["ident"], kinds=["same"], n=(4, 6), flags={"way": way}, func_over=0.0, mapper_idle=0.0))
+        mapgen.to_new(rng, sp, sd, getonly=0.1, setonly=0.0, embed=1.0, newmark=0.5 if way == "to" else 0.0)
+        out.append(("embedded-new-" + sd, sp))
     # both sides accessor mode, set-only fields on the source: ToX must not read them (constructor arguments included)
     for i in range(2):
         sp = g.pair(**dict(BASE, names=["ident"], kinds=["same", "conv"], flags={"way": "to"}))
@@ -81,7 +86,7 @@ def gen_cases(ctx):
         r = ctx.rng.random()
         sides = ("dest",) if r < 0.4 else ("src",) if r < 0.7 else ("src", "dest")
         for sd in sides:
-            mapgen.to_new(ctx.rng, sp, sd, setonly=0.08)
+            mapgen.to_new(ctx.rng, sp, sd, setonly=0.08, embed=0.2)
         specs.append(("random", settle_way(ctx.rng, sp)))
     cases = []
     for i, (feat, sp) in enumerate(specs):
@@ -156,7 +161,8 @@ def run(ctx, obl):
             for k, v2 in c["detail"]["generated"].items():
                 if k.endswith(".shootmap.%s.go" % c["spec"]["sname"].lower()):
                     print(v2)
-    res.rule = ("the flat struct pairs of C05 with src, dest or both rendered with unexported fields (get-only / set-only / `new`-restricted), real "
+    res.rule = ("the flat struct pairs of C05 with src, dest or both rendered with unexported fields (get-only / set-only / `new`-restricted; some fields moved "
+                "into an embedded struct that is a shoot-new type itself), real "
                 "`shoot new -getset` output generated first, then `shoot map`; ToX/FromX executed on sentinel-filled values (unexported fields filled "
                 "and read by reflection), every written leaf decoded; plus, from the generated text, how often each leaf is written (non-zero "
                 "constructor argument + setter calls). non-trivial = some leaf receives a value")
